@@ -274,14 +274,16 @@ def reduce_worker(args):
 
 # ---------------------------------------------------------------------------------------------
 
-def write_replay(pid, bucket, case, detail):
+def write_replay(pid, bucket, case, detail, config=None):
     d = os.path.join(OUT, "replays", pid)
     os.makedirs(d, exist_ok=True)
     h = hashlib.sha1((bucket + json.dumps(case, sort_keys=True, default=str)).encode()).hexdigest()[:12]
     path = os.path.join(d, f"{h}.json")
     with open(path, "w") as fh:
-        json.dump({"property": pid, "bucket": bucket, "detail": detail, "case": case}, fh, indent=1,
-                  default=str)
+        doc = {"property": pid, "bucket": bucket, "detail": detail, "case": case}
+        if config:
+            doc["config"] = config      # environment the library must be imported under (see CONFIGS of the property)
+        json.dump(doc, fh, indent=1, default=str)
     return os.path.relpath(path, ROOT) if OUT == ROOT else path
 
 
@@ -290,6 +292,15 @@ def run_replay(pid, path):
     prop = load_prop(pid)
     with open(path) as fh:
         doc = json.load(fh)
+    cfg = doc.get("config") if isinstance(doc, dict) else None
+    if cfg and os.environ.get("PV_CONFIG") != cfg:
+        # configuration-quantified property: replay in an interpreter started with that configuration
+        import subprocess
+        configs = getattr(prop, "CONFIGS", None) or getattr(prop, "CONFIGS_THOROUGH", None) or {}
+        env = dict(os.environ)
+        env.update(configs.get(cfg, {}))
+        env["PV_CONFIG"] = cfg
+        return subprocess.run([sys.executable, "-m", "pv.runner", pid, "quick", "--replay", path], env=env).returncode
     case = doc["case"] if isinstance(doc, dict) and "case" in doc else doc
     ctx.ACTIVE = frozenset(findings.determine_active(pid, prop, quiet=True))
     res = safe_check(prop, case)
@@ -485,7 +496,7 @@ def report(pid, tier, seed, prop, total, active, plan, has_exhaustive, corpus, t
     # 3. report
     nviol = 0
     for bucket, v in sorted(total.found.items()):
-        path = write_replay(pid, bucket, v["case"], v["detail"])
+        path = write_replay(pid, bucket, v["case"], v["detail"], v.get("config"))
         print(f"  bucket={bucket} detail={json.dumps(v['detail'], default=str)[:1500]}")
         print(f"VIOLATION property={pid} replay={path}")
         nviol += 1
